@@ -156,6 +156,75 @@ def gen_emit_cases(ctx, n):
     return lines
 
 
+# ---------------------------------------------------------------- the RTU client over consecutive connections
+def gen_client_cases(ctx, n):
+    """each connection: the client has read-holding-registers(unit 1, start 0, count 1) in flight, the
+    stream is what comes back: a valid reply, an exception reply, or one of them corrupted"""
+    r = ctx.rng
+    good = lambda v: fc.rtu_frame(1, bytes([3, 2, v >> 8, v & 255]))
+    exc = lambda c: fc.rtu_frame(1, bytes([0x83, c]))
+    cases = [[([good(0x1234)[:5]], 'eof'), ([good(7)], 'pending')],            # F5 on serial: dies mid-frame, next connection is clean
+             [([fc.corrupt(r, good(1), 'crc_swapped')], 'pending'), ([good(2)], 'pending')]]
+    while len(cases) < n:
+        conns = []
+        for k in range(r.choice([1, 2, 2, 3])):
+            f = good(r.randrange(65536)) if r.random() < 0.7 else exc(r.choice([1, 2, 3, 4, 6]))
+            kind = r.random()
+            if kind < 0.5:
+                f = fc.corrupt(r, f, r.choice(CLASSES))
+            s = f + (good(9) if r.random() < 0.2 else b'')
+            if r.random() < 0.25 and len(s) > 1:
+                s = s[:r.randrange(1, len(s))]
+                fin = r.choice(['eof', 'err'])
+            else:
+                fin = r.choice(['eof', 'err', 'pending'])
+            cuts = [r.randrange(1, max(2, len(s))) for _ in range(r.choice([0, 1, 2]))]
+            conns.append((fc.split_at(s, cuts), fin))
+        cases.append(conns)
+    return cases
+
+
+def expected_client_results(spec_str):
+    out = []
+    for conn in spec_str.split(' / '):
+        res = '?'
+        for it in conn.split(' '):
+            if it.startswith('F('):
+                p = bytes.fromhex(it[2:-1].split(',')[3])
+                res = ('Ok(%d)' % (p[2] * 256 + p[3]) if len(p) == 4 and p[0] == 3 and p[1] == 2 else
+                       'Exception(%d)' % p[1] if len(p) == 2 and p[0] == 0x83 else 'BadResponse')
+            elif it.startswith('BadFrame'):
+                res = 'BadFrame'
+            elif it.startswith('Io('):
+                res = 'Io'
+            elif it == 'Pending':
+                res = 'Timeout'
+            else:
+                continue
+            break
+        out.append(res)
+    return ' / '.join(out)
+
+
+def run_client(ctx, cases):
+    line = lambda conns: ' / '.join(' '.join([fin] + [c.hex() for c in chunks]) for chunks, fin in conns)
+    coq = lambda conns: '[' + ';'.join('([%s], %s)' % (';'.join(vlib.coq_N_list(c) for c in chunks), fc.FIN[fin]) for chunks, fin in conns) + ']'
+    impl = ctx.harness('client_conns', [line(c) for c in cases], args=['--rtu'], shards=8)
+    both = ctx.coq_eval(fc.REQUIRES, 'eval_client_rtu', [coq(c) for c in cases], case_type='list (list (list N) * fin)', per_shard=100)
+    bad = 0
+    for c, i, b in zip(cases, impl, both):
+        model, _, spec = b.partition('|')
+        want = expected_client_results(spec)
+        if i != want or expected_client_results(model) != want:
+            bad += 1
+            if bad == 1:
+                ctx.violation('rtu-client.connection-results-differ-from-spec',
+                              f'RTU client over {len(c)} connection(s) `{line(c)[:200]}`: request results {i}; each connection\'s own stream prescribes {want} (frames: {spec[:160]})',
+                              {'cases': [{'client': [[[x.hex() for x in ch], fin] for ch, fin in c]}], 'impl': i, 'spec_frames': spec, 'model_frames': model, 'expected': want},
+                              no_failing_input=(i == want))
+    return bad, impl
+
+
 def check_emitted(ctx, what, frames, sources, replay_cases=None):
     """every emitted frame = rtu_format of its own destination and PDU = the Spec's rtu_frame_of, and <= 256 bytes"""
     frames = [bytes.fromhex(f) for f in frames]
@@ -190,15 +259,16 @@ def run(ctx):
         ctx.coqchk()
     if not ctx.build_harness() or not models_ok:
         return
-    emit_lines = server_cases = None
+    emit_lines = server_cases = client_cases = None
     if ctx.replay and 'cases' in ctx.replay:
         cs = ctx.replay['cases']
         cases = [fc.case_from_json(c) for c in cs if not isinstance(c, dict)]
         tags = [(set(), 'replay')] * len(cases)
         emit_lines = [c['line'] for c in cs if isinstance(c, dict) and c.get('emit') == 'client']
         server_cases = [(c['fin'], [bytes.fromhex(x) for x in c['chunks']]) for c in cs if isinstance(c, dict) and 'server' in c]
+        client_cases = [[([bytes.fromhex(x) for x in ch], fin) for ch, fin in c['client']] for c in cs if isinstance(c, dict) and 'client' in c]
     else:
-        cases, tags = gen_reader_cases(ctx, 800 if ctx.quick() else 12000)
+        cases, tags = gen_reader_cases(ctx, 800 if ctx.quick() else 6000)
     results = fc.evaluate(ctx, cases)
     n_spec, n_model = fc.compare(ctx, cases, results, 'RTU reader')
     ctx.oblige('correspondence:framed-reader-rtu', n_spec == 0 and n_model == 0, f'{n_model} model / {n_spec} spec mismatches over {len(cases)} cases')
@@ -251,6 +321,13 @@ def run(ctx):
                f'{bad_srv} session mismatches over {len(server_cases)} sessions ({n_silent} must stay silent); {bad_rep} bad replies of {len(replies)}')
     longest = max([longest] + [len(x) // 2 for x in replies])
 
+    # ---- the RTU client: corrupted replies are never accepted, every connection starts clean
+    if client_cases is None:
+        client_cases = gen_client_cases(ctx, 300 if ctx.quick() else 3000)
+    bad_cl, client_impl = run_client(ctx, client_cases) if client_cases else (0, [])
+    if client_cases:
+        ctx.oblige('correspondence:rtu-client-accepts-only-crc-verified-replies', bad_cl == 0, f'{bad_cl} mismatches over {len(client_cases)} histories')
+
     # ---- measured input classes
     classes = {}
     def bump(k, n=1):
@@ -268,17 +345,20 @@ def run(ctx):
             bump('buffer:compacted')
     for e, l in zip(emitted, emit_lines):
         bump('emit:' + l.split()[1] + (':refused' if e == 'ERR' else ''))
+    for i in client_impl:
+        for x in i.split(' / '):
+            bump('client_result:' + x.split('(')[0])
     bump('emit:server_replies', len(replies))
     bump('emit:longest_frame_bytes', longest)
     if not ctx.replay:
         need = (['corrupt:%s->rejected' % c for c in CLASSES] + ['stream:fc:%d' % f for f in fc.FCS] +
                 ['stream:exception_reply', 'stream:length_preserving', 'stream:length_changing', 'ending:Crc', 'ending:UnknownFunctionCode',
-                 'ending:FrameLengthTooBig', 'role:rtureq', 'role:rtursp', 'schedule:byte_per_byte', 'mode:resume', 'stream:stale_state_bait'])
+                 'ending:FrameLengthTooBig', 'role:rtureq', 'role:rtursp', 'schedule:byte_per_byte', 'mode:resume', 'stream:stale_state_bait', 'client_result:Ok', 'client_result:BadFrame', 'client_result:Exception'])
         missing = [k for k in need if classes.get(k, 0) < 3]
         ctx.oblige('generator-reaches-expected-classes', not missing, 'missing: ' + ','.join(missing))
     nontrivial = set(fc.to_line(c) for c, (t, _) in zip(cases, tags) if any(x.startswith('corrupt:') for x in t))
     ctx.coverage.update({
-        'evaluations': len(cases) + len(emit_lines) + len(server_cases),
+        'evaluations': len(cases) + len(emit_lines) + len(server_cases) + len(client_cases),
         'distinct_nontrivial': len(nontrivial) + len(set(e for e, _ in sent)),
         'rule': 'reader cases (role, stop/resume, ending, chunk list) from a seeded PRNG: directed list, then streams of 1-5 RTU frames of the eight functions / exception replies, '
                 'one of them corrupted (8 classes; every role x function x class combination first), x chunk schedules; non-trivial = stream contains a corrupted frame; '
